@@ -5,8 +5,9 @@ import shapes
 from common import from_replay, to_replay  # noqa: F401
 
 COQ_MODULE = "Prop_C08"
-THEOREMS = ["C08_sort_perm_invariant", "C08_common_same_order", "C08_monitor"]
-CASE_MODULES = ["Monitors", "Conc", "BMonitors"]
+THEOREMS = ["C08_sort_perm_invariant", "C08_common_same_order", "C08_monitor", "C08_every_schedule_one_order",
+            "C08_every_schedule_no_opposite_orders"]
+CASE_MODULES = ["Monitors", "Conc", "BMonitors", "WpMain"]
 CHECK_WITHOUT_PROOF = True
 TRUSTED = common.TRUSTED_COMMON
 ASSUMPTIONS = common.ASSUME_COMMON + ["an owned collection's locks are reachable only through that collection"]
@@ -92,7 +93,9 @@ def gen(tier, rng):
 
 def coq_expr(s, r):
     if s.sched:
-        return bprop.coq_expr("C08", s, r, "b")
+        e = bprop.coq_expr("C08", s, r, "b")
+        # also evaluate the decidable hypotheses of the every-schedule theorems on this scenario
+        return e and f"({e}, wfB ({s.coq_b(*r['adr'])}))"
     return f"check_C08 ({s.coq(*r['adr'])}) {common.obs_list(r)}"
 
 
